@@ -184,6 +184,31 @@ class Service:
 
         return method
 
+    def add_flaky(self, netname: str) -> None:
+        """``flaky(tok)``: its outcome at each execution is scripted per transport attempt (world.plan)."""
+        world, node = self.world, self.node
+
+        def outcome(tok: Any) -> Any:
+            script = world.plan.get(('flaky', tok), [])
+            k = world.plan.get('attempt:' + netname, 0)
+            step = script[k] if k < len(script) else 'ok'
+            if step != 'ok':
+                raise JsonRpcError(code=step[1], message='scripted failure')
+            return tok
+
+        if self.flavour == 'sync':
+            def flaky(tok):  # type: ignore[no-untyped-def]
+                world.rec(node, 'method.enter', method='flaky', tok=tok, args={})
+                return outcome(tok)
+        else:
+            async def flaky(tok):  # type: ignore[no-untyped-def,misc]
+                world.rec(node, 'method.enter', method='flaky', tok=tok, args={})
+                for d in world.plan.get(('method', tok), ()):
+                    await asyncio.sleep(d)
+                return outcome(tok)
+        self.methods['flaky'] = flaky
+        self.is_coro['flaky'] = self.flavour != 'sync'
+
     def registry(self, names: Optional[List[str]] = None) -> pjrpc.server.MethodRegistry:
         reg = pjrpc.server.MethodRegistry()
         for name in (names or sorted(self.methods)):
